@@ -19,7 +19,7 @@ func init() {
 		Run:   runC09,
 		Explanation: "Decides clauses C09.1-C09.5 of DESIGN.md: (1) error discipline: for every call returning an error in every function (and closure) reachable from sync, the worker and the upgrade helper, on the err != nil side the error reaches a return of the enclosing function on every CFG path - directly, wrapped, appended to a slice that is aggregated into a return, or as a retry closure's result - or matches one tabled, reviewed idiom (NotFound on reads of objects that may be gone, AlreadyExists on revision create, refresh reads in retry closures, event-handler lookups); dropped, overwritten and logged-only errors are violations naming the call site; " +
 			"(2) failed reconciles are re-queued with backoff (worker wiring, shared with C16.3); (3) the reconcile is stateless: no function reachable from sync stores to a package-level variable or to a field of the controller/control/pod-control/status-updater structs; (4) the one precondition rejection reachable from sync (adopting a revision that already has a controller) is never triggered by its callers (they pass orphans only); (5) the status write retries from a fresh deep copy. " +
-			"NOT decided: harmlessness of partial work and equality of the recovered final state over all fault sequences.",
+			"(5) in the pod-update primitive the pod write follows a successful claim creation once the storage repair has run. NOT decided: harmlessness of partial work and equality of the recovered final state over all fault sequences.",
 	})
 }
 
